@@ -62,4 +62,39 @@ def WellSeparated (isSep : Char → Bool) : Tpl → Bool
 def SepFreeVals (isSep : Char → Bool) (val : Nat → List Char) (tpl : Tpl) : Prop :=
   ∀ f ∈ fields tpl, ∀ c ∈ val f, isSep c = false
 
+/-! ### a decorated call at the template level (`cashews/decorators/cache/simple.py: _wrap`)
+
+```
+_tags = [get_cache_key(func, tag, args, kwargs) for tag in tags]      # rendered BEFORE the call
+_cache_key = get_cache_key(func, _key_template, args, kwargs)
+cached = await backend.get(_cache_key, default=_empty) ...            # (a miss)
+result = await func(*args, **kwargs)                                  # may change mutable arguments in place
+await backend.set(_cache_key, result, expire=_ttl, tags=_tags)
+```
+`val f` is the rendering of argument `f` when the call is made; the decorated function may mutate its
+(list / dict / object) arguments in place: `body val f` is the rendering of argument `f` when it returns. -/
+
+/-- what a miss stores: the key, and the tags the entry is filed under -/
+structure Filed where
+  key : List Char
+  tags : List (List Char)
+  deriving DecidableEq, Repr
+
+/-- the decorator: key and tags are rendered from the arguments as the caller passed them; what the body
+does to them afterwards cannot matter -/
+def decorMiss (keyTpl : Tpl) (tagTpls : List Tpl) (val : Nat → List Char)
+    (body : (Nat → List Char) → (Nat → List Char)) : Filed :=
+  let tags := tagTpls.map (render val)
+  let key := render val keyTpl
+  let _afterCall := body val
+  { key := key, tags := tags }
+
+/-- the variant that renders the tags only once they are needed, i.e. after the function has run - kept only to
+show, in `Props/C12.lean`, that it breaks the property -/
+def decorMissLate (keyTpl : Tpl) (tagTpls : List Tpl) (val : Nat → List Char)
+    (body : (Nat → List Char) → (Nat → List Char)) : Filed :=
+  let key := render val keyTpl
+  let afterCall := body val
+  { key := key, tags := tagTpls.map (render afterCall) }
+
 end CashewsVerif.TagTpl
